@@ -9,6 +9,7 @@ from ..oracles import banks_ref as R
 from ..strategies import (
     RATES,
     bank_specs,
+    round_linear_tri_specs,
     build_bank,
     build_scale,
     floats,
@@ -105,6 +106,8 @@ def warmups():
         "m": st.sampled_from(["freq", "half", "trunc", "imp", "freq", "half", "other"]),
         "filt": st.sampled_from(["same", "same", "same", 0, 1, 2]),
         "w": st.sampled_from(["same", "same", "2W-2", "2W-1", "half_len", "W+1", "W-1", 7, 12, 64]),
+        # the caller post-processes the array it was given in place (dB conversion, normalisation ...)
+        "scribble": st.sampled_from([False, False, True]),
     })
     return st.one_of(st.just([]), st.lists(op, min_size=1, max_size=4))
 
@@ -154,14 +157,21 @@ def apply_warmup(bank, num_filts, i, W, warmup):
             continue
         j = i if op["filt"] == "same" else int(op["filt"]) % num_filts
         m = op["m"]
+        got = None
         if m == "freq":
-            call("get_frequency_response (earlier query)", bank.get_frequency_response, j, w)
+            got = call("get_frequency_response (earlier query)", bank.get_frequency_response, j, w)
         elif m == "half":
-            call("get_frequency_response(half=True) (earlier query)", bank.get_frequency_response, j, w, True)
+            got = call("get_frequency_response(half=True) (earlier query)", bank.get_frequency_response, j, w, True)
         elif m == "trunc":
-            call("get_truncated_response (earlier query)", bank.get_truncated_response, j, w)
+            got = call("get_truncated_response (earlier query)", bank.get_truncated_response, j, w)
         elif m == "imp" and w <= 512:
-            call("get_impulse_response (earlier query)", bank.get_impulse_response, j, w)
+            got = call("get_impulse_response (earlier query)", bank.get_impulse_response, j, w)
+        if op.get("scribble"):
+            # a returned array belongs to the caller: whatever it does with it must not reach later queries
+            for arr in (got if isinstance(got, tuple) else (got,)):
+                if isinstance(arr, np.ndarray) and arr.size and arr.flags.writeable:
+                    arr *= 3.0
+                    arr += 1.0
 
 
 def check_layout(case):
@@ -272,6 +282,7 @@ def check_gain(case):
     i = app[case["filt"] % len(app)]
     l, r = bands[i]
     W = int(math.ceil(16 * rate / (r - l))) + case["extra"]
+    apply_warmup(bank, spec["num_filts"], i, W, case.get("warmup"))
     H = call("get_frequency_response", bank.get_frequency_response, i, W)
     require(isinstance(H, np.ndarray) and H.shape == (W,), "frequency response has shape {!r}", getattr(H, "shape", None))
     A = np.abs(H)
@@ -432,7 +443,8 @@ def narrowed_specs(draw, kinds, max_filts=40, allow_l2=True, orders=(1, 2, 3, 4,
 def clauses(tier):
     any_bank = lambda: st.fixed_dictionaries({"bank": st.one_of(bank_specs(max_filts=12), bank_specs(max_filts=40))})  # noqa
     tri_case = lambda: st.fixed_dictionaries({  # noqa
-        "bank": bank_specs(kinds=["tri", "fbank"], max_filts=24),
+        "bank": st.one_of(bank_specs(kinds=["tri", "fbank"], max_filts=24), bank_specs(kinds=["tri", "fbank"], max_filts=24),
+                          bank_specs(kinds=["tri", "fbank"], max_filts=24), round_linear_tri_specs()),
         "filt": st.integers(0, 39),
         "width": st.one_of(st.none(), st.none(), st.integers(2, 16), st.integers(2, 2048),
                            st.sampled_from([2, 3, 4, 8, 64, 255, 256, 257, 512, 1024, 2048])),
@@ -443,6 +455,7 @@ def clauses(tier):
         "bank": narrowed_specs(["gabor", "gammatone"], allow_l2=False),
         "filt": st.integers(0, 39),
         "extra": st.integers(0, 17),
+        "warmup": warmups(),
     })
     l2_case = lambda: st.fixed_dictionaries({  # noqa
         "bank": narrowed_specs(["gabor", "gammatone", "gammatone"], rates=[1000, 2000, 8000, 8000, 16000, 44100],
